@@ -189,10 +189,16 @@ def gen(seed: int, tier: str) -> dict[str, Any]:
                     offs.append(pos + rng.randrange(1, ln_))
                 pos += ln_
             chunkings.append({"mode": "cuts", "cuts": offs})
+    reconnect_cut = None
+    if proto == "tcp" and not exhaustive and total > 8 and not any(i["k"] == "C" for i in items) and rng.random() < 0.3:
+        # the connection dies somewhere in the stream (often in the middle of a frame) and the *same* transport object
+        # connects again: the new stream starts afresh
+        reconnect_cut = rng.randrange(1, total)
     policy = None
     if proto == "udp" and rng.random() < 0.5:
         policy = {"drop": 0.1, "dup": 0.1, "delay": 0.1}
-    return {"seed": seed, "tier": "S", "config": {"proto": proto, "exhaustive": exhaustive, "batch": 1},
+    return {"seed": seed, "tier": "S", "config": {"proto": proto, "exhaustive": exhaustive, "batch": 1,
+                                                   "reconnect_cut": reconnect_cut},
             "items": items, "chunkings": chunkings, "fault_policy": policy}
 
 
@@ -296,6 +302,40 @@ def run(plan: dict[str, Any]) -> dict[str, Any]:
         stats["chunkings"] += 1
         judge(delivered, label, before)
 
+    async def reconnect_tcp(k: int):
+        """First connection: the stream up to octet k, then the server closes. Second connection of the same transport
+        object: the whole stream.  Delivered = frames complete within the first k octets, then every frame again."""
+        peer = _Peer()
+        peer.chunks = [stream[:k]]
+        net.tcp_listen("10.0.0.9", 3671, peer)
+        delivered: list[tuple] = []
+        tr = TCPTransport(("10.0.0.9", 3671))
+        tr.register_callback(lambda fr, src, t: delivered.append(key_of(fr)))
+        before = len(net.protocol_escapes)
+        await tr.connect()
+        await asyncio.sleep(0.05)
+        if peer.conn is not None:
+            peer.conn.server_close(None)
+        await asyncio.sleep(0.05)
+        tr.stop()
+        first_n = len(delivered)
+        peer.chunks = [stream]
+        await tr.connect()
+        await asyncio.sleep(0.05)
+        tr.stop()
+        await asyncio.sleep(0.01)
+        stats["chunkings"] += 1
+        R.extra_faults["connection_lost_mid_stream_then_same_transport_reconnects"] += 1
+        for e in net.protocol_escapes[before:]:
+            R.violate("C22.no-escape", f"{e['type']}@{e['func']}", f"[reconnect] {e['where']}: {e['msg']}")
+        expset = set(expected)
+        second = [x for x in delivered[first_n:] if x in expset]
+        if strict and second != expected:
+            R.violate("C22.tcp-once-in-order", "new-connection:" + _diff_sig(expected, second),
+                      f"[reconnect after {k} of {len(stream)} octets] the second connection of the same transport delivered "
+                      f"{len(second)} of {len(expected)} frames; first difference at index "
+                      f"{next((i for i, (a, b) in enumerate(zip(expected, second)) if a != b), min(len(expected), len(second)))}")
+
     def cut(cuts: list[int]) -> list[bytes]:
         out = []
         prev = 0
@@ -356,6 +396,8 @@ def run(plan: dict[str, Any]) -> dict[str, Any]:
                 await one_tcp(chunks, ck["mode"])
                 if _hangs():
                     break
+            if cfg.get("reconnect_cut") and not _hangs():
+                await reconnect_tcp(cfg["reconnect_cut"])
 
     R.execute(main())
     from sim import harness as _H
@@ -364,7 +406,7 @@ def run(plan: dict[str, Any]) -> dict[str, Any]:
         # Everything else observed in this run is a consequence of the interruption and is not reported.
         del R.violations[:]
         R.violate("C22.no-escape", "hang-in-receive-callback",
-                  f"{'/'.join(sorted(set(_H.HANGS)))}() did not return within {_H.RUN_WALL_LIMIT:.0f} s of wall-clock time inside "
+                  f"{'/'.join(sorted(set(_H.HANGS)))}() did not return within {_H.RUN_WALL_LIMIT:.0f} s of CPU time inside "
                   f"the transport's receive callback (interrupted by the harness watchdog)")
     R.probes["chunkings"] += stats["chunkings"]
     kinds = "".join(i["k"] for i in items)
